@@ -20,6 +20,14 @@ def fr(q):
     return q[0] / q[1]
 
 
+def _cl(v):
+    """diverged values are clamped into TLC's integer range (they fail the verdict all the same)"""
+    v = float(v)
+    if v != v:
+        return 1 << 30
+    return int(max(-(1 << 30), min(1 << 30, v)))
+
+
 def run(ctx):
     import atomman as am
     from atomman.mep.integrator import euler, rungekutta
@@ -141,17 +149,22 @@ def run(ctx):
                 runs.append((c2, nimg, bent))
     if quick:
         runs = runs[:6]
-    for ri, (c2, nimg, bent) in enumerate(runs):
-        def energy(X, c2=c2):
+    runs = [r + (1.0,) for r in runs]
+    # stiff members of the family (energy scaled by 250): the stable time step is far below the path's default one, so every phase
+    # of relax() has to use the step it was given
+    runs += [(1.0, 10, True, 250.0)] if quick else [(1.0, 10, True, 250.0), (2.0, 16, False, 400.0), (0.5, 10, False, 250.0)]
+    for ri, (c2, nimg, bent, stiff) in enumerate(runs):
+        def energy(X, c2=c2, stiff=stiff):
             X = np.asarray(X)
-            return (X[..., 0] ** 2 - 1) ** 2 + c2 * X[..., 1] ** 2
+            return stiff * ((X[..., 0] ** 2 - 1) ** 2 + c2 * X[..., 1] ** 2)
+        dt1, dt2 = (0.01 if ri % 3 else 0.02, 0.01) if stiff == 1.0 else (1.5 / (8 * stiff), 1.5 / (8 * stiff))
         t = np.linspace(0, 1, nimg)
         start = np.array([-1.3, 0.4])
         end = np.array([0.9, -0.3])
         coord = start + np.outer(t, end - start)
         if bent:
             coord[:, 1] += 0.6 * np.sin(np.pi * t)
-        tag = {'c': c2, 'nimg': nimg, 'bent': bent, 'options': 'default' if ri % 2 == 0 else 'explicit'}
+        tag = {'c': c2, 'nimg': nimg, 'bent': bent, 'stiff': stiff, 'options': 'default' if ri % 2 == 0 else 'explicit'}
         try:
             if ri % 2 == 0:
                 path = mep.create_path(coord, energy, style='ISM')
@@ -160,21 +173,21 @@ def run(ctx):
             e0, e1 = [], []
             cur = path
             for blk in range(6):
-                cur = cur.relax(relaxsteps=40 if blk < 3 else 300, climbsteps=0, timestep=0.01 if ri % 3 else 0.02, verbose=False)
-                en = cur.energy()
-                e0.append(int(round(en[0] * S)))
-                e1.append(int(round(en[-1] * S)))
+                cur = cur.relax(relaxsteps=40 if blk < 3 else 300, climbsteps=0, timestep=dt1, verbose=False)
+                en = cur.energy() / stiff
+                e0.append(_cl(round(en[0] * S)))
+                e1.append(_cl(round(en[-1] * S)))
             if ri % 2:
-                fin = cur.relax(relaxsteps=0, climbsteps=1500, timestep=0.01, verbose=False)
+                fin = cur.relax(relaxsteps=0, climbsteps=1500, timestep=dt2, verbose=False)
             else:   # relaxation and climbing requested in ONE call; the relaxation phase ends by reaching its tolerance
-                fin = cur.relax(relaxsteps=2000, climbsteps=1500, timestep=0.01, verbose=False)
-            en = fin.energy()
+                fin = cur.relax(relaxsteps=2000, climbsteps=1500, timestep=dt2, verbose=False)
+            en = fin.energy() / stiff
             it = int(np.argmax(en))
-            g = fin.grad_energy(fin.coord[it:it + 1])[0] if hasattr(fin, 'grad_energy') else np.zeros(2)
+            g = (fin.grad_energy(fin.coord[it:it + 1])[0] if hasattr(fin, 'grad_energy') else np.zeros(2)) / stiff
             recs.append({'ev': 'relax', 'tag': tag, 's': S, 'tol': S // 500, 'climb': True,
-                         'end0': [int(round(x * S)) for x in fin.coord[0]], 'end1': [int(round(x * S)) for x in fin.coord[-1]],
-                         'e0hist': e0, 'e1hist': e1, 'top': [int(round(x * S)) for x in fin.coord[it]], 'etop': int(round(en[it] * S)),
-                         'gtop': int(round(float(np.linalg.norm(g)) * S)), 'arc': [int(round(x * S)) for x in fin.arccoord]})
+                         'end0': [_cl(round(x * S)) for x in fin.coord[0]], 'end1': [_cl(round(x * S)) for x in fin.coord[-1]],
+                         'e0hist': e0, 'e1hist': e1, 'top': [_cl(round(x * S)) for x in fin.coord[it]], 'etop': _cl(round(en[it] * S)),
+                         'gtop': _cl(round(float(np.linalg.norm(g)) * S)), 'arc': [_cl(round(x * S)) for x in fin.arccoord]})
         except Exception as ex:
             import traceback
             tb = traceback.extract_tb(ex.__traceback__)[-1]
